@@ -36,9 +36,9 @@ type Ev struct {
 type Trace struct {
 	ID         string `json:"id"`
 	Dir        string `json:"dir"`
-	RateBPS    uint64 `json:"rate_bps"`    // as handed to the control plane
-	Burst      uint64 `json:"burst"`       // burst_bytes of the bucket the manager wrote (0 if no bucket was found)
-	MapRate    uint64 `json:"map_rate"`    // rate_bps found in the map (information)
+	RateBPS    uint64 `json:"rate_bps"` // as handed to the control plane
+	Burst      uint64 `json:"burst"`    // burst_bytes of the bucket the manager wrote (0 if no bucket was found)
+	MapRate    uint64 `json:"map_rate"` // rate_bps found in the map (information)
 	Backlogged bool   `json:"backlogged"`
 	MaxPkt     int    `json:"maxpkt"`
 	Pattern    string `json:"pattern"`
@@ -57,6 +57,10 @@ type spec struct {
 	N       int    `json:"n"`
 	Seed    int64  `json:"seed"`
 	Policy  bool   `json:"policy"`
+	// an earlier policy of the same subscriber, set (and optionally removed) before the one under test
+	Prev     bool   `json:"prev"`
+	PrevRate uint64 `json:"prev_rate"`
+	Remove   bool   `json:"remove"`
 }
 
 func frameFor(dir string, sub net.IP, size int) []byte {
@@ -109,6 +113,16 @@ func runTrace(t *testing.T, drvPath string, infos []bpfnative.MapInfo, sp spec) 
 		core.Field(mgr, f).Set(reflect.ValueOf(km))
 	}
 	sub := net.IPv4(10, 77, 3, 9).To4()
+	if sp.Prev {
+		if err := mgr.SetSubscriberQoS(&q.SubscriberQoS{IP: sub, DownloadBPS: sp.PrevRate, UploadBPS: sp.PrevRate, BurstBytes: 3000, Priority: 1}); err != nil {
+			t.Fatal(err)
+		}
+		if sp.Remove {
+			if err := mgr.RemoveSubscriberQoS(sub); err != nil {
+				t.Fatal(err)
+			}
+		}
+	}
 	if sp.Policy {
 		pm.AddPolicy(&radius.QoSPolicy{Name: "p", DownloadBPS: sp.Rate, UploadBPS: sp.Rate, BurstSize: sp.Burst, Priority: 3})
 		if err := mgr.SetSubscriberPolicy(sub, "p"); err != nil {
@@ -121,7 +135,7 @@ func runTrace(t *testing.T, drvPath string, infos []bpfnative.MapInfo, sp spec) 
 	}
 	mapName := "qos_" + sp.Dir
 	tr := Trace{ID: sp.ID, Dir: sp.Dir, RateBPS: sp.Rate, Pattern: sp.Pattern, Clock0: sp.Clock0, ViaPolicy: sp.Policy, MaxPkt: 1514}
-	if sp.Pattern == "starve" {
+	if sp.Pattern == "starve" || sp.Pattern == "drift" {
 		tr.MaxPkt = 64
 	}
 	// the bucket the manager wrote (its burst is the contract's burst; the rate is the API's)
@@ -173,6 +187,15 @@ func runTrace(t *testing.T, drvPath string, infos []bpfnative.MapInfo, sp spec) 
 				}
 			}
 			tr.Backlogged = true
+		case "drift": // minimum-size packets offered at least as fast as they accrue, nanosecond-grained gaps:
+			// every refill rounds, so rounding in the bucket's favour accumulates with the number of refills
+			size = 64
+			maxGap := uint64(1)
+			if sp.Rate > 0 {
+				maxGap = max(1, uint64(size)*8000000000/sp.Rate)
+			}
+			gap = 1 + uint64(rng.Int63n(int64(maxGap)))
+			tr.Backlogged = true
 		case "burst": // back-to-back trains separated by idle periods
 			size = 64 + rng.Intn(1450)
 			if i%12 == 11 {
@@ -217,8 +240,10 @@ func specs(tier string, seed int64) []spec {
 	patterns := []string{"backlog-fine", "backlog-coarse", "burst", "idle", "mixed"}
 	clocks := []uint64{0, 1_000_000_000, 864_000_000_000_000, 1<<63 - 5_000, 1<<64 - 1 - 3_000_000}
 	n, count := 40, 24
+	driftRates, driftN := []uint64{30_000_000, 2_400_000_000, 10_000_000_000, 100_000_000_000}, 4000
 	if tier == "thorough" {
 		n, count = 60, 400
+		driftRates, driftN = []uint64{3_000_000, 30_000_000, 300_000_000, 999_999_937, 2_400_000_000, 7_000_000_000, 10_000_000_000, 33_000_000_000, 100_000_000_000}, 40000
 	}
 	var out []spec
 	for i := 0; i < count; i++ {
@@ -227,8 +252,27 @@ func specs(tier string, seed int64) []spec {
 		if i < len(rates) { // every rate once with the fine backlog pattern
 			sp.Rate, sp.Pattern = rates[i], "backlog-fine"
 		}
-		if i >= len(rates) && i < len(rates)+4 { // long small-packet traces against a minimal bucket
-			sp.Rate, sp.Pattern, sp.Burst, sp.N, sp.Dir = []uint64{64_000, 10_000_000, 100_000_000, 800_000_000}[i-len(rates)], "starve", 64, 240, "egress"
+		if i >= len(rates) && i < len(rates)+4 { // long small-packet traces against a minimal bucket (two packets)
+			sp.Rate, sp.Pattern, sp.Burst, sp.N, sp.Dir = []uint64{64_000, 10_000_000, 100_000_000, 800_000_000}[i-len(rates)], "starve", 128, 240, "egress"
+		}
+		if i >= len(rates)+4 && i < len(rates)+4+len(driftRates) { // rounding drift: rates whose byte time is not a whole number of ns
+			sp.Rate, sp.Pattern, sp.Burst, sp.N, sp.Dir = driftRates[i-len(rates)-4], "drift", 128, driftN, "egress"
+		}
+		if i%3 == 2 { // a plan change: the subscriber had another policy before (every third of those was removed first)
+			sp.Prev, sp.PrevRate, sp.Remove = true, rates[rng.Intn(len(rates))], i%9 == 8
+			if sp.Rate != 0 && i%2 == 0 {
+				sp.PrevRate = 0
+			}
+		}
+		switch i - (len(rates) + 4 + len(driftRates)) { // plan changes to and from unlimited
+		case 0: // limited -> unlimited, download; 40 full-size packets exceed the old 3000-byte bucket at once
+			sp.Rate, sp.Prev, sp.PrevRate, sp.Remove, sp.Dir, sp.Pattern = 0, true, 2_000_000, false, "egress", "backlog-coarse"
+		case 1: // limited -> unlimited, upload (the manager gives the old bucket 64 KB: more packets needed)
+			sp.Rate, sp.Prev, sp.PrevRate, sp.Remove, sp.Dir, sp.Pattern, sp.N = 0, true, 400_000, false, "ingress", "backlog-coarse", 120
+		case 2: // limited, removed, unlimited
+			sp.Rate, sp.Prev, sp.PrevRate, sp.Remove, sp.Dir, sp.Pattern = 0, true, 2_000_000, true, "egress", "backlog-coarse"
+		case 3: // unlimited -> limited
+			sp.Rate, sp.Prev, sp.PrevRate, sp.Remove, sp.Dir, sp.Pattern, sp.Burst = 10_000_000, true, 0, false, "egress", "backlog-fine", 3000
 		}
 		if sp.Dir == "ingress" {
 			sp.Burst = 0 // the manager computes the ingress burst itself
